@@ -14,7 +14,14 @@ evaluated on the real code):
   * all 64 None/set combinations of stub-level and call-level timeout/deadline/metadata:
     what reaches channel.request (identity of the objects) and what the server reads from
     stream.metadata / stream.deadline;
-  * raw calls (no stub) on services whose Python method names collide (finding K8).
+  * raw calls (no stub) on services whose Python method names collide (finding K8);
+  * CONVERSATIONAL protocols of the vocabulary of coq/Model/GrpcConv.v (request-source table x handler table: ping-pong,
+    server-first greeting, bursts, early end of the request stream, random causal interleavings, replies chosen by what the
+    other side just said; a handler that finishes before the request stream has ended = finding C11-K2) run over the real stub
+    + Base, the caller's async generator learning about responses only through a queue fed by the caller's loop; the observed
+    (requests read, responses received, end of the call, handler told about the end) is compared inside Coq with the
+    model's sequential dialogue AND with the small-step system run under a random scheduler; protocols for the three
+    send-first helpers as well.  A hang watchdog turns a deadlock into a failing input.
 
 Every observation is compared with the model's prediction inside Coq (correspondence) and with
 the property (oracle).  Runtime that the model cannot exhibit (HTTP/2 framing, grpclib deadline
@@ -32,7 +39,7 @@ from .. import plugin_util as pu
 from .. import c11_protogen as pg
 from ..lib import cz, cb, cl, CN
 
-IMPORTS = "Model.Grpc"
+IMPORTS = "Model.Grpc Model.GrpcConv"
 CALL_TIMEOUT = 12.0
 CONV_TIMEOUT = 6.0   # conversational bidi calls (they deadlock when sending does not overlap receiving)
 MAX_HANGS = 3
@@ -40,8 +47,9 @@ MAX_HANGS = 3
 TRUSTED = [
     "Coq 8.16.1 kernel and vm_compute (no native_compute); full .vo build via coq_makefile",
     "axioms: none (every theorem of Properties/C11.v is 'Closed under the global context')",
-    "hand-written model coq/Model/Grpc.v tied to /repo by executable correspondence (this harness): model expressions are "
-    "evaluated by vm_compute inside Coq on the same services / calls the implementation ran",
+    "hand-written models coq/Model/Grpc.v (functional) and coq/Model/GrpcConv.v (small-step: sender task / caller loop / handler, "
+    "two FIFO queues, grpclib's end-of-stream check) tied to /repo by executable correspondence (this harness): model expressions are "
+    "evaluated by vm_compute inside Coq on the same services / calls / conversational protocols the implementation ran",
     "translator harness/gen_c11.py (reflection of a probe service rendered by the live plugin into coq/gen/C11Tables.v)",
     "Python side: harness/c11_protogen.py (service generator), the recording handlers / channel wrapper of this file, "
     "the mapping class -> proto type name, canonicalisation of exceptions (GRPCError status / other)",
@@ -52,12 +60,16 @@ TRUSTED = [
 ASSUMPTIONS = [
     "a message object is modelled as (class identity, serialised bytes); bytes <-> object is C01; isinstance is class equality",
     "grpclib delivers messages of one stream in order and reports the trailer status (HTTP/2 framing, flow control, deadlines, "
-    "cancellation and asyncio scheduling are not modelled: claim is partial)",
+    "cancellation / stream resets are not modelled: claim is partial); asyncio is modelled as 'any enabled task may step' "
+    "(the conversational theorems quantify over all schedules; the real FIFO ready queue is one of them)",
+    "conversational theorems: the request generator consumes responses one at a time, in order (a Kahn process); a generator "
+    "that polls 'has a response arrived yet' is outside them",
     "a GRPCError raised by a handler carries a status other than OK",
 ]
 RULE = ("services: 1..5 methods, all four cardinalities (one full-matrix service per bundle), re-cased names, request/response "
         "types local / nested / other package (child, parent, sibling, unrelated) / google.protobuf; calls: request stream "
-        "lengths 0..3 x response stream lengths 0..3, conversational (ping-pong) use of every stream-stream method, statuses "
+        "lengths 0..3 x response stream lengths 0..3, conversational (ping-pong) use of every stream-stream method, table-driven "
+        "conversational protocols (6 families x 2-4 per stream-stream method, 6 per method of the send-first helpers), statuses "
         "before/after yields, un-overridden methods, 64 None/set kwargs combinations x 4 cardinalities + 260 combinations with "
         "set-but-falsy values (timeout=0, metadata={} / []); non-trivial = a call that carries at least one non-empty message or a non-OK status "
         "or a non-None kwarg; distinct = distinct (service shape, method, request bytes, script, kwargs)")
@@ -873,6 +885,425 @@ def oracle_call(rt, case, obs, snaps):
 
 
 # ======================================================================================
+# conversational protocols (coq/Model/GrpcConv.v): request source x handler tables run over the REAL generated
+# stub + Base through ChannelFor, compared with the model's sequential dialogue and with the small-step system
+# evaluated in Coq under a random scheduler
+# ======================================================================================
+CONV_FUEL = 600
+
+
+def _pool(rt, full):
+    return list(range(len(pg.sample_kwargs(rt.classes[full].__name__))))
+
+
+def _reply_table(rng, rt, key_t, val_t):
+    """tbl.get(bytes(last), dflt): one row per sample value of the OTHER side's class (so the choice really
+    depends on what was just received), rows in random order, sometimes a row missing (-> the default)"""
+    ks = _pool(rt, key_t)
+    rng.shuffle(ks)
+    if len(ks) > 1 and rng.random() < 0.3:
+        ks = ks[:-1]
+    vs = _pool(rt, val_t)
+    return [((key_t, k), (val_t, rng.choice(vs))) for k in ks], (val_t, rng.choice(vs))
+
+
+def conv_protocol(rng, rt, m, family):
+    """a protocol of the table vocabulary with a FINITE dialogue by construction: a causal sequence of events
+    Q (the caller produces a request, the handler reads it) / A (the handler emits a response) is projected on
+    the two sides; the source awaits a subset of the responses emitted before the point where it stands."""
+    def y_src():
+        if rng.random() < 0.55:
+            tbl, d = _reply_table(rng, rt, m.out_t, m.in_t)
+            return ("reply", tbl, d)
+        return ("yield", pick_ref(rng, m.in_t, rt))
+
+    def y_hdl():
+        if rng.random() < 0.55:
+            tbl, d = _reply_table(rng, rt, m.in_t, m.out_t)
+            return ("reply", tbl, d)
+        return ("yield", pick_ref(rng, m.out_t, rt))
+
+    status, skip_await, src_cut, hdl_cut, tail_recv, tail_await, variant = None, 0.0, None, None, 1, 0, None
+    if family == "ping-pong":
+        ev = "QA" * rng.randint(1, 4)
+    elif family == "server-first greeting":
+        ev = "A" + "QA" * rng.randint(0, 3)
+    elif family == "bursts":
+        ev = "".join(rng.choice(["Q", "QQ", "QQQ"]) + rng.choice(["A", "AA", "AAA", ""]) for _ in range(rng.randint(1, 3)))
+        ev = rng.choice(["", "A", "AA"]) + ev
+        skip_await = 0.3
+    elif family == "early end (client)":
+        ev = "QA" * rng.randint(2, 4)
+        src_cut = True
+        tail_recv = rng.randint(1, 2)
+    elif family == "server ends first":
+        # the handler finishes WITHOUT having been told that the request stream has ended (known finding C11-K2):
+        #  a: OK status, the source never ends (it waits for a response that never comes) -> the model's answer is
+        #     the same under every schedule (ProtocolError) and is compared;
+        #  b: OK status, the source ends -> the outcome depends on the schedule (C11_server_ends_first_refuted);
+        #  c: non-OK status -> grpclib resets the stream, responses in flight may be dropped (not modelled)
+        ev = rng.choice(["", "A"]) + "QA" * rng.randint(2, 4)
+        hdl_cut = True
+        variant = rng.choice("aab") if rng.random() < 0.8 else "c"
+        status = rng.choice([5, 7, 13]) if variant == "c" else None
+        tail_recv = 0
+        tail_await = 1 if variant == "a" else 0
+    else:  # random
+        ev = "".join(rng.choice("QQA") if rng.random() < 0.8 else "AA" for _ in range(rng.randint(0, 7)))
+        skip_await = rng.choice([0.0, 0.3, 1.0])
+        status = rng.choice([None, None, None, 3, 16])
+        tail_recv = rng.choice([1, 1, 2])
+    src, hdl = [], []
+    for e in ev:
+        if e == "Q":
+            src.append(y_src())
+            hdl.append(("recv",))
+        else:
+            hdl.append(y_hdl())
+            if rng.random() >= skip_await:
+                src.append(("await",))
+    if src_cut and len(src) > 1:
+        src = src[:rng.randrange(1, len(src))]          # the source ends early: the handler's next reads see the end
+    if hdl_cut and len(hdl) > 1:
+        hdl = hdl[:rng.randrange(1, len(hdl))]          # the handler ends early: later requests are never read
+    if tail_await and not tail_recv:
+        # waits for more responses than the handler ever emits: the source never ends
+        n_emit = sum(1 for ins in hdl if ins[0] != "recv")
+        n_await = sum(1 for ins in src if ins[0] == "await")
+        src += [("await",)] * (max(0, n_emit - n_await) + tail_await)
+    else:
+        hdl += [("recv",)] * tail_recv                  # reads after the source has ended: None
+    out = {"family": family, "src": src, "hdl": hdl, "status": status}
+    if variant:
+        out["variant"] = variant
+    return out
+
+
+def seq_protocol(rng, rt, m):
+    """the three helpers that send first: the request source cannot wait for a response (it would never get one)"""
+    n = rng.randint(0, 3) if m.cs else 1
+    src = [("yield", pick_ref(rng, m.in_t, rt)) for _ in range(n)]
+    k = rng.randint(0, n + 1) if m.cs else 1
+    hdl = [("recv",)] * k
+    status = rng.choice([None, None, None, 5, 9])
+    if m.ss:
+        for _ in range(rng.randint(0, 3)):
+            tbl, d = _reply_table(rng, rt, m.in_t, m.out_t)
+            hdl.append(("reply", tbl, d) if rng.random() < 0.6 else ("yield", pick_ref(rng, m.out_t, rt)))
+    elif status is None:
+        tbl, d = _reply_table(rng, rt, m.in_t, m.out_t)
+        hdl.append(("reply", tbl, d) if rng.random() < 0.6 else ("yield", pick_ref(rng, m.out_t, rt)))
+    return {"family": f"send-first helper cs={int(m.cs)} ss={int(m.ss)}", "src": src, "hdl": hdl, "status": status}
+
+
+def _tbl_lit(rt, tbl):
+    return "[" + "; ".join(f"({lib.coq_bytes(rt.snap(rt.value(k))[1])}, {msg_lit(rt.snap(rt.value(v)))})" for k, v in tbl) + "]"
+
+
+def src_prog_lit(rt, prog):
+    out = []
+    for ins in prog:
+        if ins[0] == "yield":
+            out.append(f"SI_yield {msg_lit(rt.snap(rt.value(ins[1])))}")
+        elif ins[0] == "await":
+            out.append("SI_await")
+        else:
+            out.append(f"SI_reply {_tbl_lit(rt, ins[1])} {msg_lit(rt.snap(rt.value(ins[2])))}")
+    return "[" + "; ".join(out) + "]"
+
+
+def hdl_prog_lit(rt, prog):
+    out = []
+    for ins in prog:
+        if ins[0] == "yield":
+            out.append(f"HI_yield {msg_lit(rt.snap(rt.value(ins[1])))}")
+        elif ins[0] == "recv":
+            out.append("HI_recv")
+        else:
+            out.append(f"HI_reply {_tbl_lit(rt, ins[1])} {msg_lit(rt.snap(rt.value(ins[2])))}")
+    return "[" + "; ".join(out) + "]"
+
+
+def _lookup(rt, tbl, last, dflt):
+    """tbl.get(bytes(last), dflt), first matching row"""
+    if last is not None:
+        key = bytes(last)
+        for k, v in tbl:
+            if bytes(rt.value(k)) == key:
+                return rt.value(v)
+    return rt.value(dflt)
+
+
+async def conv_call(rt, i, proto):
+    """run one protocol over the real stub + Base. The request generator runs where the real code runs it (inside
+    ServiceStub._send_messages); it learns about responses only through an asyncio.Queue the caller's loop feeds."""
+    import grpclib
+    from grpclib.testing import ChannelFor
+
+    m, py = rt.svc.methods[i], rt.py[i]
+    obs = {"yielded": [], "read": [], "emitted": [], "received": [], "end": ("done",), "handler_runs": 0, "saw_end": False}
+    status = None if proto["status"] is None else grpclib.const.Status(proto["status"])
+
+    async def run_hdl(recv):
+        last = None
+        for ins in proto["hdl"]:
+            if ins[0] == "recv":
+                last = await recv()
+                if last is not None:
+                    obs["read"].append(rt.snap(last))
+                else:
+                    obs["saw_end"] = True
+            else:
+                v = rt.value(ins[1]) if ins[0] == "yield" else _lookup(rt, ins[1], last, ins[2])
+                obs["emitted"].append(rt.snap(v))
+                yield v
+        if status is not None:
+            raise grpclib.GRPCError(status, "scripted")
+
+    def receiver(request):
+        if m.cs:
+            it = request.__aiter__()
+
+            async def recv():
+                try:
+                    return await it.__anext__()
+                except StopAsyncIteration:
+                    return None
+        else:
+            box = [request]
+
+            async def recv():   # the adapter has already awaited stream.recv_message(): the handler's first read
+                return box.pop() if box else None
+        return recv
+
+    if m.ss:
+        async def h(self, request):
+            obs["handler_runs"] += 1
+            async for v in run_hdl(receiver(request)):
+                yield v
+    else:
+        async def h(self, request):
+            obs["handler_runs"] += 1
+            out = None
+            async for v in run_hdl(receiver(request)):
+                out = v
+            return out
+    h.__name__ = py
+    impl = type("Impl", (rt.Base,), {py: h})()
+    inbox = asyncio.Queue()
+
+    async def source():
+        last = None
+        for ins in proto["src"]:
+            if ins[0] == "await":
+                last = await inbox.get()
+                continue
+            v = rt.value(ins[1]) if ins[0] == "yield" else _lookup(rt, ins[1], last, ins[2])
+            obs["yielded"].append(rt.snap(v))
+            yield v
+
+    async def body():
+        async with ChannelFor([impl]) as ch:
+            stub = rt.Stub(ch)
+            try:
+                if m.cs:
+                    arg = source()
+                else:
+                    ins = proto["src"][0]
+                    arg = rt.value(ins[1])
+                    obs["yielded"].append(rt.snap(arg))
+                res = getattr(stub, py)(arg)
+                if m.ss:
+                    async for r in res:
+                        obs["received"].append(rt.snap(r))
+                        inbox.put_nowait(r)
+                else:
+                    r = await res
+                    obs["received"].append(rt.snap(r))
+            except grpclib.GRPCError as e:
+                obs["end"] = ("grpc", e.status.value)
+                if not m.ss:
+                    obs["received"] = []
+            except asyncio.CancelledError:
+                raise
+            except Exception as e:  # noqa
+                obs["end"] = ("exc", f"{type(e).__name__}: {e}")
+                if not m.ss:
+                    obs["received"] = []
+            await asyncio.sleep(0)
+    before = asyncio.all_tasks()
+    try:
+        await asyncio.wait_for(body(), CONV_TIMEOUT)
+    except asyncio.TimeoutError:
+        obs["end"] = ("hang", f"no result within {CONV_TIMEOUT}s")
+    except Exception as e:  # noqa
+        obs["end"] = ("exc", f"harness/transport: {type(e).__name__}: {e}")
+    # a sender task whose generator waits for a response that never comes (the handler has finished) stays pending
+    left = [t for t in asyncio.all_tasks() if t not in before and t is not asyncio.current_task()]
+    for t in left:
+        t.cancel()
+    if left:
+        await asyncio.gather(*left, return_exceptions=True)
+    return obs
+
+
+def conv_oracle(m, proto, obs):
+    """the property on one conversational call: it completes; the caller received exactly what the handler
+    emitted, in order; the handler read, in order, a prefix of what the caller's generator produced (all of it
+    unless the handler stopped reading); exactly one handler body ran; the handler's status reached the caller"""
+    why = []
+    if obs["end"][0] == "hang":
+        return [f"the conversational call deadlocked ({obs['end'][1]}): the source had produced {len(obs['yielded'])} request(s), the "
+                f"handler had read {len(obs['read'])} and emitted {len(obs['emitted'])}, the caller had received {len(obs['received'])}"]
+    if obs["handler_runs"] != 1:
+        why.append(f"{obs['handler_runs']} handler bodies ran")
+    if obs["read"] != obs["yielded"][:len(obs["read"])]:
+        why.append(f"the handler read {obs['read'][:4]}, the caller's generator produced {obs['yielded'][:4]}")
+    want_end = ("done",) if proto["status"] is None else ("grpc", proto["status"])
+    if m.ss:
+        if obs["received"] != obs["emitted"]:
+            why.append(f"the caller received {len(obs['received'])} response(s) {obs['received'][:4]}, the handler emitted "
+                       f"{len(obs['emitted'])} {obs['emitted'][:4]}")
+    else:
+        want = obs["emitted"][-1:] if proto["status"] is None else []
+        if obs["received"] != want:
+            why.append(f"the caller received {obs['received']}, the handler returned {want}")
+    if obs["end"] != want_end:
+        why.append(f"the call ended with {obs['end']}, the handler with {want_end}")
+    return why
+
+
+def k2_shape(proto, obs):
+    """is this failure of a `server ends first` protocol the known finding C11-K2 and nothing else: the right handler
+    ran once on a prefix of the produced requests, and either (OK status) every response arrived and the iteration ended
+    with grpclib's ProtocolError, or (non-OK status) a prefix of the responses arrived and then that status / ProtocolError"""
+    if obs["end"][0] == "hang" or obs["handler_runs"] != 1 or obs["read"] != obs["yielded"][:len(obs["read"])]:
+        return False
+    not_ended = obs["end"][0] == "exc" and "Outgoing stream was not ended" in obs["end"][1]
+    if proto["status"] is None:
+        return obs["received"] == obs["emitted"] and not_ended
+    return obs["received"] == obs["emitted"][:len(obs["received"])] and (not_ended or obs["end"] == ("grpc", proto["status"]))
+
+
+def conv_input(rt, i, proto, obs=None):
+    d = {"service": rt.describe(), "case": {"kind": "conv", "method": i, "py": rt.py[i], "protocol": proto},
+         "proto_files": rt.bundle.files, "types": {k: list(v) for k, v in rt.bundle.types.items()}}
+    if obs is not None:
+        d["observed"] = {k: ([(t, b.hex()) for t, b in v] if isinstance(v, list) else v) for k, v in obs.items()}
+    return d
+
+
+HELPER_OF = {(False, False): "H_unary_unary", (False, True): "H_unary_stream", (True, False): "H_stream_unary", (True, True): "H_stream_stream"}
+
+
+def conv_stage(ctx, rts):
+    """returns nothing; records failures in ctx"""
+    rng = ctx.rng
+    families = ["ping-pong", "server-first greeting", "bursts", "early end (client)", "random", "server ends first"]
+    work = []
+    full = [rt for rt in rts if len(rt.svc.methods) == 4 and not rt.svc.collision
+            and {(m.cs, m.ss) for m in rt.svc.methods} == set(CARD_NUM)]
+    bidi = [(rt, i) for rt in rts for i, m in enumerate(rt.svc.methods) if m.cs and m.ss and not rt.dup_py(i)]
+    reps = 6 if ctx.thorough else 2
+    for rt, i in (bidi if ctx.thorough else bidi[:8]):
+        for fam in families:
+            for _ in range(reps if fam != "random" else 2 * reps):
+                work.append((rt, i, conv_protocol(rng, rt, rt.svc.methods[i], fam)))
+    for rt in (full[:6] if ctx.thorough else full[:2]):
+        for i, m in enumerate(rt.svc.methods):
+            if not (m.cs and m.ss):
+                for _ in range(3 * reps):
+                    work.append((rt, i, seq_protocol(rng, rt, m)))
+    if not bidi:
+        ctx.fail("crash", "no stream-stream method was generated: the conversational protocols were not run", no_input=True,
+                 theorem_or_correspondence="C11_conversation_complete (tie)")
+        return
+    hangs = [0]
+
+    async def run_all():
+        out = []
+        for rt, i, proto in work:
+            if hangs[0] >= 2:
+                out.append(None)
+                continue
+            try:
+                obs = await conv_call(rt, i, proto)
+            except Exception as e:  # noqa
+                obs = {"yielded": [], "read": [], "emitted": [], "received": [], "handler_runs": 0, "saw_end": False,
+                       "end": ("exc", f"harness: {type(e).__name__}: {e}")}
+            if obs["end"][0] == "hang":
+                hangs[0] += 1
+            out.append(obs)
+        return out
+    t0 = time.time()
+    results = asyncio.run(run_all())
+    ctx.notes.append(f"{len(work)} conversational protocols over ChannelFor: {time.time() - t0:.1f}s")
+    if hangs[0]:
+        ctx.notes.append(f"{hangs[0]} conversational protocols deadlocked (further ones skipped after 2)")
+    pairs, descr = [], []
+    for (rt, i, proto), obs in zip(work, results):
+        if obs is None:
+            continue
+        m = rt.svc.methods[i]
+        ctx.cov["evaluations"] += 1
+        ctx.count("conversation:" + proto["family"])
+        ctx.seen_nontrivial(json.dumps([rt.literal(), i, proto], sort_keys=True, default=repr))
+        try:
+            why = conv_oracle(m, proto, obs)
+        except Exception as e:  # noqa
+            why = [f"oracle evaluation raised {type(e).__name__}: {e}"]
+        if why:
+            if proto["family"] == "server ends first" and k2_shape(proto, obs):
+                # one line per defect (lib de-duplicates on the text); the observation goes into the detail
+                ctx.fail("oracle", "a stream-stream handler that finishes without reading the request stream to its end: the caller "
+                                   "does not get the handler's outcome (ProtocolError('Outgoing stream was not ended') from grpclib's "
+                                   "client when ServiceStub._stream_stream leaves `async with` before its sender task has called "
+                                   "stream.end(); with a non-OK status the last responses can be dropped as well)",
+                         cls="server-ends-first", input=conv_input(rt, i, proto, obs), feature="conversation: " + proto["family"],
+                         detail="; ".join(why)[:900])
+            else:
+                ctx.fail("oracle", "; ".join(why)[:900], input=conv_input(rt, i, proto, obs), feature="conversation: " + proto["family"])
+        if obs["end"][0] == "hang":
+            continue      # (the model's answer for a finite dialogue is a completed call: nothing to compare with)
+        if proto.get("variant") in ("b", "c"):
+            continue      # (schedule-dependent outcome / stream reset: see conv_protocol)
+        st = "None" if proto["status"] is None else f"(Some ({proto['status']})%Z)"
+        sp, hp = src_prog_lit(rt, proto["src"]), hdl_prog_lit(rt, proto["hdl"])
+        expected = cl([cl([cv_msg(x) for x in obs["read"]]), cl([cv_msg(x) for x in obs["received"]]), cv_end(obs["end"]),
+                       lib.cbool(obs["saw_end"])])
+        choices = "[" + "; ".join(f"{rng.randrange(3)}%nat" for _ in range(rng.randint(1, 7))) + "]"
+        mode = f"(helper_mode {HELPER_OF[(m.cs, m.ss)]}) {lib.coq_bool(not m.ss)}"
+        if m.cs and m.ss and proto["family"] != "server ends first":
+            # (the dialogue's third component is the handler's status: what the caller gets when the handler was told
+            #  about the end of the request stream, C11_conversation_complete)
+            pairs.append((f"cv_transcript (table_dialogue (fuel_of {CONV_FUEL}) {sp} {hp} {st})", expected))
+            descr.append(("sequential dialogue (Dlg)", rt, i, proto, obs))
+        pairs.append((f"cv_final (table_system {mode} (fuel_of {CONV_FUEL}) {choices} {sp} {hp} {st})", expected))
+        descr.append((f"small-step system under the scheduler choices {choices}", rt, i, proto, obs))
+    t1 = time.time()
+    try:
+        bad = lib.coq_compare(ctx, "c11conv", imports_with(rts), pairs, chunk=60)
+        ctx.notes.append(f"{len(pairs)} conversational model evaluations in Coq: {time.time() - t1:.1f}s")
+    except RuntimeError as e:
+        ctx.fail("corr", "the conversational model could not be evaluated on the generated protocols (Model/GrpcConv.v does not build "
+                         "or a case is ill-formed)", no_input=True,
+                 theorem_or_correspondence="T2 correspondence Model/GrpcConv.v <-> generated stub/base + betterproto.grpc", detail=str(e)[-1500:])
+        bad = []
+    ctx.cov["disagreements_checked"] += len(pairs)
+    for idx in bad[:6]:
+        what, rt, i, proto, obs = descr[idx]
+        model_val = lib.coq_eval(ctx, imports_with([rt]), pairs[idx][0])
+        ctx.fail("corr", f"model and implementation disagree on a conversational protocol ({proto['family']}): {what}",
+                 input=conv_input(rt, i, proto, obs), expected_model=model_val[-1500:], observed_impl=pairs[idx][1][:1500],
+                 theorem_or_correspondence="T2 correspondence Model/GrpcConv.v <-> generated stub/base + betterproto.grpc")
+    if len(bad) > 6:
+        ctx.notes.append(f"{len(bad)} conversational correspondence disagreements in total, 6 reported")
+    if pairs:
+        ctx.sample({"case": descr[0][0], "service": descr[0][1].describe()["service"], "feature": "conversation: " + descr[0][3]["family"],
+                    "model_expr": pairs[0][0][:400], "impl": pairs[0][1][:400]})
+
+
+# ======================================================================================
 # run
 # ======================================================================================
 def corpus_bundles(ctx):
@@ -1114,6 +1545,13 @@ def run(ctx):
         ctx.fail("corr", f"reflection of the probe service failed: {type(e).__name__}: {e}", no_input=True,
                  theorem_or_correspondence="C11_tables (T1 reflection)", traceback=traceback.format_exc()[-1500:])
 
+    # ------------------------------------------------------------------ conversational protocols (Model/GrpcConv.v)
+    try:
+        conv_stage(ctx, rts)
+    except Exception as e:  # noqa
+        ctx.fail("crash", f"the conversational stage raised {type(e).__name__}: {e}", no_input=True,
+                 theorem_or_correspondence="C11_conversation_complete (tie)", traceback=traceback.format_exc()[-1500:])
+
     # ------------------------------------------------------------------ correspondence inside Coq
     t2 = time.time()
     try:
@@ -1145,8 +1583,10 @@ def finish(ctx):
         ctx, "proof",
         "Coq theorems (all services, all stream lengths, all 64 kwargs combinations) over a Gallina mirror of the generated stub / "
         "server base and betterproto.grpc + regenerated reflection tables (T1) + executable correspondence on services rendered by "
-        "the real plugin and called over grpclib.testing.ChannelFor; PARTIAL: HTTP/2 framing, grpclib deadlines/cancellation and "
-        "asyncio scheduling are exercised by the real calls but not modelled",
+        "the real plugin and called over grpclib.testing.ChannelFor; small-step model of one call (sender task / caller loop / handler, "
+        "any schedule) with confluence and completeness theorems for conversational request streams, tied by conversational protocols run "
+        "over the real stub + Base; PARTIAL: HTTP/2 framing and flow control, grpclib deadlines, cancellation / stream resets are exercised "
+        "by the real calls but not modelled",
         ASSUMPTIONS, TRUSTED, RULE,
         extra_cov={"exhaustive": False,
                    "explanation": "theorems are unbounded over services / streams / kwargs; the correspondence samples generated services "
@@ -1158,6 +1598,27 @@ def replay(ctx, obj):
     logging.disable(logging.CRITICAL)
     inp = obj.get("input") or {}
     print(json.dumps({k: obj.get(k) for k in ("kind", "what", "cls", "feature")}, indent=1))
+    if "proto_files" in inp and inp.get("case", {}).get("kind") == "conv":
+        # a conversational protocol (coq/Model/GrpcConv.v vocabulary): run it again over the real stub + Base
+        root = f"c11replay{os.getpid()}"
+        rc, out, _ = pu.generate(ctx.work, inp["proto_files"], root)
+        if rc != 0:
+            print("plugin failed:", out[-1000:])
+            return 1
+        sd = inp["service"]
+        svc = pg.Svc(0, sd["package"], sd["service"], "", [pg.Meth(m["name"], m["client_streaming"], m["server_streaming"], m["in"], m["out"]) for m in sd["methods"]])
+        bundle = pg.Bundle(root, inp["proto_files"], [svc], {k: tuple(v) for k, v in inp["types"].items()})
+        rt = Rt(bundle, svc, ctx.work)
+        case = inp["case"]
+        proto, i = case["protocol"], case["method"]
+        obs = asyncio.run(conv_call(rt, i, proto))
+        why = conv_oracle(rt.svc.methods[i], proto, obs)
+        print("protocol:", json.dumps({"family": proto["family"], "status": proto["status"], "source": [x[0] for x in proto["src"]],
+                                       "handler": [x[0] for x in proto["hdl"]]}))
+        print("source produced:", obs["yielded"], "\nhandler read:", obs["read"], "\nhandler emitted:", obs["emitted"],
+              "\ncaller received:", obs["received"], obs["end"])
+        print("property:", "HOLDS on this input" if not why else "VIOLATED: " + "; ".join(why))
+        return 1 if why else 0
     if "proto_files" not in inp or inp.get("case", {}).get("kind") != "call":
         print(json.dumps(inp, indent=1, default=repr)[:4000])
         return 0
